@@ -22,6 +22,7 @@ func init() {
 			"R1": "every call site of a claim-set unit is guarded by (err of a KeyValue Create/Update in this activation) == nil; its revision argument has origin ownwrite of that call; its token argument has the same origins as payload.Token of that call's value argument",
 			"R2": "claim Store(true) has the election mutex (write) in its must-lockset and is guarded by a run-liveness literal established in the same function",
 			"R3": "see C01-R6 (claim Store(false) dominates Delete)",
+			"R6": "shared with C03-R4: on every ctx.Done() exit of the refresh loop the claim is false or a call that reaches the claim-clearing unit on each of its paths dominates the exit (a claim must not outlive the loop that refreshes its record)",
 			"R5": "in the claim-set unit the atomic stores of the token, revision and leader-id fields dominate the claim Store(true) (sequentially consistent atomics: a lock-free reader that sees the claim sees the term's values)",
 			"R4": "exactly one function stores true to the claim; every store to the claim is a constant",
 		},
@@ -276,6 +277,7 @@ func checkC02(c *Ctx) {
 
 	// ---- R5: the claim is published last ------------------------------------------------------
 	claimPublishedLastRule(c, "R5")
+	ctxDoneDemotionRule(c, "R6")
 
 	// ---- R3 (shared with C01-R6) --------------------------------------------------------
 	for _, op := range m.StoreOps() {
@@ -337,5 +339,50 @@ func claimPublishedLastRule(c *Ctx, rule string) {
 			c.check(st != nil && m.dominatesLifted(unit, st, claim), rule, "the "+fld.name+" of the term is published before the claim in "+shortFn(unit), claim,
 				"the store of %s dominates the claim Store(true): %v. IsLeader(), Token(), LeaderID() and the watcher's revision filter read these fields without the mutex: with the claim stored first a reader sees IsLeader()==true together with the previous term's (or no) %s.", m.path(fld.f), st != nil && m.dominatesLifted(unit, st, claim), fld.name)
 		}
+	}
+}
+
+
+// ctxDoneDemotionRule (C02-R6, the ctx.Done() part of C03-R4): the refresh loop never ends on its
+// context while the claim stands. A claim without a refresh loop is a claim on a record that
+// lapses: the next instance to create the key is a second leader.
+func ctxDoneDemotionRule(c *Ctx, rule string) {
+	m := c.M
+	rf := m.refreshLoopFn()
+	if rf == nil {
+		c.undecided(rule, "refresh loop", nil, "not found")
+		return
+	}
+	n := 0
+	for _, b := range liveBlocks(rf) {
+		ret, ok := b.Instrs[len(b.Instrs)-1].(*ssa.Return)
+		if !ok || b == rf.Recover {
+			continue
+		}
+		gs := m.Guards(b)
+		ctxDone := false
+		for _, l := range gs {
+			if sel, k, ok := selectCaseOf(l); ok && k < len(sel.States) {
+				if s := m.Sym.Of(sel.States[k].Chan); s.Op == "invoke" && strings.HasSuffix(s.Name, "Context.Done") {
+					ctxDone = true
+				}
+			}
+		}
+		if !ctxDone {
+			continue
+		}
+		n++
+		must := m.claimLit(gs, false) || hasEvent(gs, "passed-may-demote")
+		eachInstr(rf, func(in ssa.Instruction) {
+			if call, ok := in.(*ssa.Call); ok && dominatesInstr(call, ret) {
+				if g := call.Call.StaticCallee(); g != nil && m.isLib(g) && m.alwaysReachesClearUnit(g, 0) {
+					must = true
+				}
+			}
+		})
+		c.check(must, rule, fmt.Sprintf("refresh loop exit #%d (context done) does not leave a claim behind", exitOrdinal(rf, b)), ret, "the claim is false here, or a call that reaches the claim-clearing unit on every one of its paths dominates the exit: %v. Otherwise a cancelled Start context (followed, say, by Start again) leaves IsLeader()==true with nothing refreshing the record; once it lapses the next Create makes a second leader.", must)
+	}
+	if n == 0 {
+		c.undecided(rule, "instance-floor", firstInstr(rf), "the refresh loop has no exit on its context's Done channel")
 	}
 }
